@@ -3,6 +3,7 @@ C18 — per-call options override module defaults; each option does only its job
 -/
 import FeedVerif.Model.Options
 import FeedVerif.Props.C04
+import FeedVerif.Model.Mixin
 
 namespace FeedVerif.Options
 
@@ -99,3 +100,58 @@ example : runSeq ⟨true, true, true⟩ [.call ⟨none, none, none⟩, .setFlags
     = [⟨true, true, true⟩, ⟨false, false, true⟩] := by decide
 
 end FeedVerif.Options
+
+/-! ### stage 2 of M-mixin: what `pop()` does to the value of a text construct (title, subtitle, rights, …)
+
+`contentOutput` is the model of the post-processing chain of `XMLParserMixin.pop` (mixin.py:531-616) with the sanitizer, the
+relative-URI resolver, `looks_like_html`, base64 and the back end's reference decoding as parameters; it is tied to the real `pop` on
+every run by the M-mixin correspondence (recorded answers of those five functions). -/
+
+namespace FeedVerif.Mixin
+
+/-- **sanitize_html=False switches the sanitizer off and does nothing else** (C18): with the option off the result does not depend on
+the sanitizer at all … -/
+theorem sanitize_off_ignores_sanitizer (o : Ops) (f : Str → Str → Str) (c : Core) (el out0 : Str) (hoff : o.sanitizeOn = false) :
+    contentOutput { o with sanitize := f } c el out0 = contentOutput o c el out0 := by
+  unfold contentOutput
+  simp only [hoff, Bool.and_false, Bool.false_and, Bool.false_eq_true, ↓reduceIte]
+
+/-- … and the option has no other effect: were the sanitizer the identity, on and off would give the same value and type -/
+theorem sanitize_option_only_sanitizes (o : Ops) (c : Core) (el out0 : Str) (hid : o.sanitize = fun _ x => x) (b : Bool) :
+    contentOutput { o with sanitizeOn := b } c el out0 = contentOutput { o with sanitizeOn := !b } c el out0 := by
+  unfold contentOutput
+  simp only [hid]
+  cases b <;> simp
+
+/-- the same for resolve_relative_uris and the resolver of embedded markup -/
+theorem resolve_off_ignores_resolver (o : Ops) (f : Str → Str → Str → Str) (c : Core) (el out0 : Str) (hoff : o.resolveOn = false) :
+    contentOutput { o with resolveMarkup := f } c el out0 = contentOutput o c el out0 := by
+  unfold contentOutput
+  simp only [hoff, Bool.and_false, Bool.false_and, Bool.false_eq_true, ↓reduceIte]
+
+theorem resolve_option_only_resolves (o : Ops) (c : Core) (el out0 : Str) (hid : o.resolveMarkup = fun _ _ x => x) (b : Bool) :
+    contentOutput { o with resolveOn := b } c el out0 = contentOutput { o with resolveOn := !b } c el out0 := by
+  unfold contentOutput
+  simp only [hid]
+  cases b <;> simp
+
+/-- element-level URIs are resolved whatever `resolve_relative_uris` says (the option governs embedded markup only) -/
+theorem element_uri_resolved_regardless (o : Ops) (c : Core) (el out0 : Str) (b : Bool)
+    (hu : canBeRelativeUri.contains el = true) (hne : out0.isEmpty = false) (hid : el ≠ S "id")
+    (hb : cpBase64 c = false)
+    (hnm : canContainRelativeUris.contains el = false) :
+    contentOutput { o with resolveOn := b } c el out0 = contentOutput o c el out0 := by
+  unfold contentOutput
+  simp only [hnm, Bool.and_false, Bool.false_eq_true, ↓reduceIte]
+
+/-- non-vacuity: the same HTML-typed subtitle under the four option settings, with stub transformers that mark what ran -/
+example :
+    let o : Ops := { base := ⟨fun _ r => r, fun u => u, fun _ r => r⟩, join := fun _ u => u, fix := id, loose := false,
+                     sanitize := fun _ x => x ++ S "+S", resolveMarkup := fun _ _ x => x ++ S "+R" }
+    let c : Core := { version := S "atom10", cp := some ⟨S "text/html", none, "", false⟩ }
+    ((contentOutput { o with sanitizeOn := true, resolveOn := true } c (S "subtitle") (S "v")).2,
+     (contentOutput { o with sanitizeOn := false, resolveOn := true } c (S "subtitle") (S "v")).2,
+     (contentOutput { o with sanitizeOn := true, resolveOn := false } c (S "subtitle") (S "v")).2,
+     (contentOutput { o with sanitizeOn := false, resolveOn := false } c (S "subtitle") (S "v")).2) = (S "v+R+S", S "v+R", S "v+S", S "v") := by decide +kernel
+
+end FeedVerif.Mixin
